@@ -79,12 +79,12 @@ def run(ctx):
                 data = p.arg(pos, 1)
                 dvf = T.variant_field(T.peel(data))
                 oiw = T.peel(recv, payloads=False)
-                c1 = T.is_call(oiw, r"Entry::<'a, K, V, A>::(or_insert_with|or_default|or_insert)$")
+                c1 = T.is_call(oiw, r"Entry::<'a, K, V(, A)?>::(or_insert_with|or_default|or_insert)$")
                 ent = oiw[2][0] if c1 else None
                 c2 = ent is not None and T.is_call(ent, r"HashMap::<K, V, S, A>::entry$")
                 key = T.variant_field(T.peel(ent[2][1])) if c2 else None
                 mp = ent[2][0] if c2 else None
-                c3 = mp is not None and T.is_field(mp, "long_data") and mp[1][0] == "okpayload" and \
+                c3 = mp is not None and T.is_field(mp, "long_data") and mp[1][0] in ("okpayload", "somepayload") and \
                     T.contains(mp[1], lambda x: T.is_call(x, r"::get_mut$") and T.variant_field(T.peel(x[2][1])) is not None
                                and T.variant_field(T.peel(x[2][1]))[0:2] == ("SendLongData", "stmt"))
                 c4 = key is not None and key[0:2] == ("SendLongData", "param")
